@@ -142,3 +142,239 @@ def where(body, bb, stmt=None):
 
 def fn_of_site(site):
     return site[0] if site else None
+
+
+# ---------------------------------------------------------------- def-use (forward)
+def _op_locals(op):
+    if op['k'] in ('copy', 'move'):
+        out = [op['p']['l']]
+        for e in op['p']['p']:
+            if e['k'] == 'index':
+                out.append(e['l'])
+        return out
+    return []
+
+
+def _place_locals_read(p):
+    """locals read when *writing* to place p (index operands, derefs of the base pointer)"""
+    out = []
+    for e in p['p']:
+        if e['k'] == 'index':
+            out.append(e['l'])
+    if any(e['k'] == 'deref' for e in p['p']):
+        out.append(p['l'])
+    return out
+
+
+def rv_operands(rv):
+    k = rv['k']
+    if k in ('use', 'cast', 'repeat'):
+        return [rv['op']]
+    if k == 'bin':
+        return [rv['a'], rv['b']]
+    if k == 'un':
+        return [rv['a']]
+    if k == 'agg':
+        return list(rv['ops'])
+    return []
+
+
+def rv_places(rv):
+    k = rv['k']
+    if k in ('ref', 'rawptr', 'copyforderef', 'discr'):
+        return [rv['p']]
+    return []
+
+
+def uses(body, local):
+    """every read of `local` in reachable non-cleanup blocks:
+    [(kind, bb, obj)] kind in stmt-operand / stmt-place / call-arg / switch / assert / drop / ret"""
+    out = []
+    for bi, b in enumerate(body.blocks):
+        if b['cleanup'] or bi not in body.cfg.reach:
+            continue
+        for st in b['stmts']:
+            if st['k'] != 'assign':
+                continue
+            for op in rv_operands(st['rv']):
+                if local in _op_locals(op):
+                    out.append(('stmt-operand', bi, st))
+            for p in rv_places(st['rv']):
+                if p['l'] == local or local in _place_locals_read(p):
+                    out.append(('stmt-place', bi, st))
+            if local in _place_locals_read(st['p']):
+                out.append(('stmt-dest', bi, st))
+        t = b['term']
+        if not t:
+            continue
+        k = t['k']
+        if k == 'call':
+            for i, a in enumerate(t['args']):
+                if local in _op_locals(a):
+                    out.append(('call-arg', bi, (t, i)))
+            if t.get('indirect') and local in _op_locals(t['indirect']):
+                out.append(('call-fn', bi, t))
+            if local in _place_locals_read(t['dest']):
+                out.append(('call-dest', bi, t))
+        elif k == 'switch':
+            if local in _op_locals(t['discr']):
+                out.append(('switch', bi, t))
+        elif k == 'assert':
+            if local in _op_locals(t['cond']):
+                out.append(('assert', bi, t))
+        elif k == 'drop':
+            if t['p']['l'] == local:
+                out.append(('drop', bi, t))
+        elif k == 'return' and local == 0:
+            out.append(('ret', bi, t))
+    return out
+
+
+def ty_is_result(ty):
+    return ty.startswith('std::result::Result<') or ty.startswith('core::result::Result<')
+
+
+RESULT_PROPAGATORS = {
+    'std::ops::Try::branch', 'std::result::Result::map', 'std::result::Result::map_err',
+    'std::result::Result::and_then', 'std::ops::FromResidual::from_residual',
+    'std::iter::Iterator::collect',
+}
+
+
+def result_fates(body, local, seen=None):
+    """where does the Result held in `local` end up?  returns list of (fate, bb, span)
+    fate in: try / returned / combinator:<callee> (followed) / consumed:<callee> / matched / dropped / field-read"""
+    if seen is None:
+        seen = set()
+    if local in seen:
+        return []
+    seen.add(local)
+    out = []
+    us = uses(body, local)
+    real = [u for u in us if u[0] != 'drop']
+    if local == 0:
+        out.append(('returned', None, body.span))
+    if not real and local != 0:
+        out.append(('dropped', None, None))
+    for kind, bb, obj in real:
+        if kind == 'stmt-operand':
+            st = obj
+            rv = st['rv']
+            if rv['k'] == 'use' and not st['p']['p']:
+                out += result_fates(body, st['p']['l'], seen)
+            elif rv['k'] == 'agg':
+                # wrapped in an aggregate (e.g. Some(r)): follow the aggregate
+                out += result_fates(body, st['p']['l'], seen)
+            else:
+                out.append(('other-use', bb, st.get('span')))
+        elif kind == 'stmt-place':
+            st = obj
+            if st['rv']['k'] == 'discr':
+                out.append(('matched', bb, st.get('span')))
+            elif st['rv']['k'] in ('ref', 'copyforderef') and not st['p']['p']:
+                out += result_fates(body, st['p']['l'], seen)
+            else:
+                out.append(('other-use', bb, st.get('span')))
+        elif kind == 'call-arg':
+            t, i = obj
+            c = body.call_at(bb)
+            name = callee_name(c)
+            if name == 'std::ops::Try::branch':
+                out.append(('try', bb, t['span']))
+            elif name in RESULT_PROPAGATORS and i == 0:
+                out += result_fates(body, t['dest']['l'], seen)
+            else:
+                out.append(('consumed:' + name, bb, t['span']))
+        elif kind == 'switch':
+            out.append(('matched', bb, obj['span']))
+        else:
+            out.append((kind, bb, None))
+    return out
+
+
+# ---------------------------------------------------------------- A5 switch tables
+def edge_region(body, a, s):
+    """blocks that can only be reached through edge a->s"""
+    cfg = body.cfg
+    seen = set()
+    st = [0]
+    while st:
+        x = st.pop()
+        if x in seen:
+            continue
+        seen.add(x)
+        for y in cfg.succ[x]:
+            if x == a and y == s:
+                continue
+            st.append(y)
+    return cfg.reach - seen
+
+
+def defs_in(body, blocks):
+    """[(local, proj, term, bb, span)] assignments (stmts and call dests) inside `blocks`"""
+    r = res(body)
+    out = []
+    for bi in sorted(blocks):
+        b = body.blocks[bi]
+        if b['cleanup']:
+            continue
+        for st in b['stmts']:
+            if st['k'] == 'assign':
+                out.append((st['p']['l'], r._projkey(st['p']), r.rvalue(st['rv'], (), bi), bi, st.get('span')))
+        t = b['term']
+        if t and t['k'] == 'call':
+            out.append((t['dest']['l'], r._projkey(t['dest']), r.call_term(t, (), bi), bi, t.get('span')))
+    return out
+
+
+def switch_table(body, bb):
+    """{'values': {v: succ}, 'otherwise': succ, 'arms': {succ: {'region', 'defs', 'ret'}}}
+    'ret' = list of terms assigned to _0 (whole) inside the arm region."""
+    t = body.blocks[bb]['term']
+    values = {v: s for v, s in t['targets']}
+    out = {'values': values, 'otherwise': t['otherwise'], 'arms': {}, 'bb': bb, 'span': t['span'],
+           'ty': t['ty']}
+    for s in set(list(values.values()) + [t['otherwise']]):
+        reg = edge_region(body, bb, s)
+        ds = defs_in(body, reg)
+        out['arms'][s] = {'region': reg, 'defs': ds,
+                          'ret': [d[2] for d in ds if d[0] == 0 and not d[1]]}
+    return out
+
+
+def switches_on(body, pred):
+    """switch blocks whose discriminant term satisfies pred (after stripping casts and discr())"""
+    out = []
+    for bi, b in enumerate(body.blocks):
+        t = b['term']
+        if b['cleanup'] or bi not in body.cfg.reach or not t or t['k'] != 'switch':
+            continue
+        d = res(body).operand(t['discr'])
+        if pred(d):
+            out.append(bi)
+    return out
+
+
+def is_err_term(t):
+    """an error-return value"""
+    if t[0] == 'residual':
+        return True
+    if t[0] == 'agg' and t[2] == 'Err':
+        return True
+    return False
+
+
+def is_ok_agg(t):
+    return t[0] == 'agg' and t[2] == 'Ok'
+
+
+def arm_always_err(body, succ, region=None):
+    """every path from `succ` to a return carries an Err in _0 and no Ok value is assigned on the way:
+    checked as: within blocks reachable from succ (before return), every whole def of _0 is an error term and
+    there is at least one."""
+    cfg = body.cfg
+    reach = cfg.reachable_from(succ)
+    ds = [d for d in defs_in(body, reach) if d[0] == 0 and not d[1]]
+    if not ds:
+        return False
+    return all(all(is_err_term(a) for a in alts(d[2])) for d in ds)
